@@ -42,7 +42,7 @@ type Opts struct {
 	Country string // alpha-2 of issuer.Countries ("" = DE)
 	Layout  string // TD1/TD2/TD3 ("" = TD3)
 
-	Access     string     // "BAC", "PACE+BAC", "PACE", "PACE-CAM", "BAC+PACE-UNSUPPORTED"
+	Access     string     // "BAC", "PACE+BAC", "PACE", "PACE-CAM", "BAC+PACE-UNSUPPORTED", "NONE" (no access control)
 	PaceID     int        // 8..18 (0 = 12)
 	PaceCipher mac.Cipher // "" = AES-128
 	CAN        string     // "" = 123456
@@ -257,6 +257,9 @@ func Build(o Opts) (*Persona, error) {
 		cfg.BAC = o.Access == "PACE+BAC"
 		p.ExpectPACE = true
 		p.ExpectCAM = o.Access == "PACE-CAM"
+	case "NONE":
+		// no access control at all (first-generation documents): every file is readable in the clear
+		cfg.OpenLDS = true
 	case "BAC+PACE-UNSUPPORTED":
 		// EF.CardAccess advertises PACE only in forms the library does not implement (integrated
 		// mapping, DH, an OID of the id-PACE arc nobody knows); the chip also supports BAC, which is
